@@ -221,6 +221,18 @@ func RepExprs(yield func(name string, x X)) {
 	yield("array-one", Array([]X{Col("c1")}))
 	yield("array-nested-empty", Array([]X{Array([]X{Int("1")}), X{Toks: []Tok{kw("ARRAY"), {S: "[", Call: true}, pt("]")}, Full: []Tok{kw("ARRAY"), {S: "[", Call: true}, pt("]")},
 		N: &ast.ArrayConstructorExpression{}, P: PPrimary, Feat: []string{"expr.array", "expr.array.empty"}}}))
+	// the optional clauses of a call in combination (each carries names of its own)
+	flt := func() *X { return xp(Bin(">", Col("c7"), Func("f7", []X{Col("c8")}, FuncOpts{}))) }
+	win := func() *Window { return &Window{Partition: []X{Col("c9")}, Order: []OrderItem{{X: Func("f9", []X{Col("c6")}, FuncOpts{})}}} }
+	wg := []OrderItem{{X: Col("c5")}, {X: Col("c4"), Dir: "DESC"}}
+	yield("call-distinct+filter", Func("COUNT", []X{Col("c1")}, FuncOpts{Distinct: true, Filter: flt()}))
+	yield("call-filter+over", Func("SUM", []X{Col("c1")}, FuncOpts{Filter: flt(), Over: win()}))
+	yield("call-within-group+filter", Func("PERCENTILE_CONT", []X{Float("0.5")}, FuncOpts{WithinGroup: wg, Filter: flt()}))
+	yield("call-within-group+over", Func("PERCENTILE_DISC", []X{Float("0.9")}, FuncOpts{WithinGroup: wg, Over: win()}))
+	yield("call-order-by+filter", Func("STRING_AGG", []X{Col("c1"), Str(",")}, FuncOpts{OrderBy: []OrderItem{{X: Col("c5")}}, Filter: flt()}))
+	yield("call-distinct+order-by", Func("ARRAY_AGG", []X{Col("c1")}, FuncOpts{Distinct: true, OrderBy: []OrderItem{{X: Col("c1")}}}))
+	yield("call-distinct+over", Func("COUNT", []X{Col("c1")}, FuncOpts{Distinct: true, Over: win()}))
+	yield("call-within-group+filter+over", Func("PERCENTILE_CONT", []X{Float("0.5")}, FuncOpts{WithinGroup: wg, Filter: flt(), Over: win()}))
 	yield("in-list-one", In(Col("c1"), false, []X{Int("1")}))
 	yield("call-no-args", Func("f1", nil, FuncOpts{}))
 	yield("call-over-empty", Func("SUM", []X{Col("c1")}, FuncOpts{Over: &Window{}}))
